@@ -137,14 +137,15 @@ let check_line (l : string) : string =
         let oldi = int_of_n old in
         let fi = index_of (fun (x, _) -> x = f.tag) wire in
         if fi < 0 && not disconnected && not f.flushed then
-          bad (Printf.sprintf "ORACLE C07.tflush_not_answered tag=%d %s flushcycle=%d" f.tag where (if in_cycle f.rid then 1 else 0));
+          bad (Printf.sprintf "ORACLE C07.tflush_not_answered|C03.request_never_answered tag=%d %s flushcycle=%d" f.tag where (if in_cycle f.rid then 1 else 0));
         if fi >= 0 then begin
           (* the target: the newest earlier request with the old tag *)
           let cands = List.filter (fun r -> r.tag = oldi && r.rid < f.rid) reqs in
           (match List.rev cands with
            | tgt :: _ when List.length cands = 1 ->
              let ti = index_of (fun (x, _) -> x = oldi) wire in
-             if ti > fi then bad (Printf.sprintf "ORACLE C07.reply_after_rflush oldtag=%d %s" oldi where);
+             (* once the Rflush is out the old tag is no longer outstanding: the late reply is also a reply for a tag without a request (C03) *)
+             if ti > fi then bad (Printf.sprintf "ORACLE C07.reply_after_rflush|C03.reply_for_tag_no_longer_outstanding oldtag=%d %s" oldi where);
              if ti < 0 then begin
                (* no reply preceded the Rflush: the target must be cancelled *)
                let rec after_send seen_sd = function
